@@ -5,6 +5,7 @@
    '"' + _escapify + '"', _styled_hexify, _styled_base64ify, joined by single blanks.
    Definitions only; proofs in Proofs/RdText*.v. *)
 From DV Require Import Base.Prelude Model.NameM Model.TokM.
+From DV Require Model.SchemaM.   (* read-only: the GPOS coordinate checks modelled for C02 (gpos_ok) *)
 Open Scope Z_scope.
 
 Definition iValueError := 105.     (* ValueError from an rdata constructor check *)
@@ -48,7 +49,8 @@ Inductive tfield :=
 | FB64RestE                                (* IPSECKEY key: concatenate_remaining_identifiers(True) + b64decode, styled
                                               chunks, may be empty (the blank before it is still printed) *)
 | FMac                                     (* TSIG: "mac_len mac"; base64.b64decode(tok.get_string()), length compared *)
-| FOther.                                  (* TSIG: "other_len [other]"; the data token is read only when other_len > 0 *)
+| FOther                                   (* TSIG: "other_len [other]"; the data token is read only when other_len > 0 *)
+| FGposStr.                                (* GPOS latitude / longitude / altitude: get_string, kept as the octets of the text *)
 
 Inductive gwval := GwNone | GwText (t : list Z) | GwName (n : name).
 
@@ -763,6 +765,7 @@ Definition print_field (st : style) (f : tfield) (v : tval) : res (list Z) :=
   | FB64RestE, VBytes b => Ok (styled_base64ify b (s_b64_chunk st) (s_b64_sep st))
   | FMac, VBytes b => Ok (dec (zlen b) ++ [32] ++ b64encode b)
   | FOther, VBytes b => Ok (dec (zlen b) ++ (if is_nil b then [] else 32 :: b64encode b))
+  | FGposStr, VBytes b => Ok b          (* self.latitude.decode(): the validated strings are ASCII *)
   | _, _ => Internal eBadCase
   end.
 
@@ -850,6 +853,7 @@ Definition parse_field (c : pctx) (f : tfield) (st : tstate) : res (tval * tstat
   | FB64RestE =>
       do hs <- concatenate_remaining_identifiers st true;
       do e <- utf8_encode (fst hs); do b <- b64decode e; Ok (VBytes b, snd hs)
+  | FGposStr => do ts <- get_string st 0; Ok (VBytes (fst ts), snd ts)
   | FMac =>
       do ns <- get_uint max16 st 10;
       do ts <- get_string (snd ns) 0;
@@ -907,6 +911,8 @@ Definition ctor_field (f : tfield) (v : tval) : res tval :=
   | FHexStr, VBytes b => if zlen b >? 255 then Internal iValueError else Ok v
   | FB64Tok maxlen, VBytes b => if zlen b >? maxlen then Internal iValueError else Ok v
   | FB64RestOpt, VBytes b => if zlen b >? 65535 then Internal iValueError else Ok v
+  | FGposStr, VBytes t =>     (* _as_bytes(value, True, 255): str.encode(), at most 255 octets *)
+      do e <- utf8_encode t; if zlen e >? 255 then Internal iValueError else Ok (VBytes e)
   | FGw _, VGw g a gw =>      (* Gateway._check *)
       if g =? 0 then
         match gw with
@@ -1001,6 +1007,7 @@ Definition schema_of (rdtype : Z) : option (list tfield) :=
   else if (rdtype =? 104) || (rdtype =? 106) then Some [u16; FFmtHex]               (* NID L64 *)
   else if rdtype =? CH_A then Some [FName; FOct16]                                 (* A in class CH *)
   else if rdtype =? 20 then Some [cstr; FQOpt]                                     (* ISDN *)
+  else if rdtype =? 27 then Some [FGposStr; FGposStr; FGposStr]                    (* GPOS *)
   else if rdtype =? 250 then Some [FNameNoRel; FDec max48; u16; FMac; u16; FEnum KRcode; FOther]   (* TSIG *)
   else if rdtype =? 45 then Some [u8; FGw true; FB64RestE]                         (* IPSECKEY *)
   else if rdtype =? 260 then Some [u8; FDec 1; FGw false]                          (* AMTRELAY *)
@@ -1040,10 +1047,19 @@ Definition zonemd_check (vs : list tval) : res unit :=
   | _ => Internal eBadCase
   end.
 
+(* GPOS.__init__: _validate_float_string on the three strings, |latitude| <= 90, |longitude| <= 180 as floats;
+   the test itself is the one modelled (and compared with float()) for C02 *)
+Definition gpos_check (vs : list tval) : res unit :=
+  match vs with
+  | [VBytes lat; VBytes lon; VBytes alt] => if SchemaM.gpos_ok lat lon alt then Ok tt else Lib TokM.eFormError
+  | _ => Internal eBadCase
+  end.
+
 Definition schema_chk (rdtype : Z) : list tval -> res unit :=
   if (rdtype =? 43) || (rdtype =? 32769) then ds_check false
   else if rdtype =? 59 then ds_check true
   else if rdtype =? 63 then zonemd_check
+  else if rdtype =? 27 then gpos_check
   else no_check.
 
 (* ---------- harness interface ---------- *)
@@ -1102,6 +1118,7 @@ Fixpoint vals_of_obs (fs : list tfield) (os : list obs) : option (list tval) :=
           | FB64RestOpt, B b => Some (VBytes b :: r)
           | FB64RestE, B b => Some (VBytes b :: r)
           | FMac, B b => Some (VBytes b :: r)
+          | FGposStr, B b => Some (VBytes b :: r)
           | FOther, B b => Some (VBytes b :: r)
           | FGw _, L [I g; I a; I 0] => Some (VGw g a GwNone :: r)
           | FGw _, L [I g; I a; B t] => Some (VGw g a (GwText t) :: r)
